@@ -363,6 +363,194 @@ def odp_slide_model(ctx):
         ctx.ev.nontrivial(("odpslide", t["raw"]))
 
 
+def _pptx_slide_job(cases):
+    """Build a p:sld element from the model's shapes and hand it to the real _process_slide_from_context."""
+    import struct
+    import zlib
+    from xml.etree import ElementTree as ET
+    from ..repo import activate
+    activate()
+    import warnings
+    warnings.simplefilter("ignore")
+    from sharepoint2text.parsing.extractors.ms_modern import pptx_extractor as mod
+    from ..docmodel import TOKEN_RE, word
+    fn = getattr(mod, "_process_slide_from_context", None)
+    if fn is None:
+        return {"skip": "pptx_extractor._process_slide_from_context not found"}
+    P, A, R = mod.P_NS, mod.A_NS, mod.R_NS
+
+    def png(n):
+        def chunk(t, d):
+            return struct.pack(">I", len(d)) + t + d + struct.pack(">I", zlib.crc32(t + d))
+        return (b"\x89PNG\r\n\x1a\n" + chunk(b"IHDR", struct.pack(">IIBBBBB", 1, 1, 8, 0, 0, 0, 0))
+                + chunk(b"IDAT", zlib.compress(b"\x00" + bytes([n % 256]))) + chunk(b"IEND", b""))
+
+    class Ctx:
+        def __init__(self, root, rels, blobs):
+            self.root, self.rels, self.blobs = root, rels, blobs
+
+        def get_slide_relationships(self, path):
+            return self.rels
+
+        def get_slide_root(self, path):
+            return self.root
+
+        def get_comment_root(self, n):
+            return None
+
+        def get_image_data(self, path):
+            return self.blobs.get(path)
+
+    def ids(texts):
+        out = []
+        for t in texts:
+            m = TOKEN_RE.fullmatch((t or "").strip())
+            if m:
+                out.append(int(m.group(1) or m.group(2) or m.group(3)))
+                continue
+            m = TOKEN_RE.fullmatch((t or "").strip()[len("[Image: "):-1]) if (t or "").startswith("[Image: ") else None
+            out.append(int(m.group(1) or m.group(2) or m.group(3)) if m else 999)
+        return out
+
+    def xfrm(parent, tag, s):
+        if s["has"]:
+            x = ET.SubElement(parent, tag)
+            ET.SubElement(x, A + "off", {"x": str(s["x"]), "y": str(s["y"])})
+            ET.SubElement(x, A + "ext", {"cx": "100", "cy": "100"})
+    res = []
+    for case in cases:
+        shapes, n0 = case["shapes"], case["n0"]
+        root = ET.Element(P + "sld")
+        tree = ET.SubElement(ET.SubElement(root, P + "cSld"), P + "spTree")
+        rels, blobs = {}, {}
+        for k, s in enumerate(shapes, start=1):
+            parent = tree
+            for d in range(s["g"]):
+                parent = ET.SubElement(parent, P + "grpSp")
+                ET.SubElement(parent, P + "nvGrpSpPr")
+                ET.SubElement(parent, P + "grpSpPr")
+            if s["kind"] == "sp":
+                sp = ET.SubElement(parent, P + "sp")
+                nv = ET.SubElement(sp, P + "nvSpPr")
+                ET.SubElement(nv, P + "cNvPr", {"id": str(k + 1), "name": f"Shape {k}"})
+                ET.SubElement(nv, P + "cNvSpPr")
+                nvpr = ET.SubElement(nv, P + "nvPr")
+                if s["ph"] != "none":
+                    at = {}
+                    if s["ph"] not in ("idx",):
+                        at["type"] = s["ph"]
+                    if s["idx"]:
+                        at["idx"] = str(s["idx"])
+                    ET.SubElement(nvpr, P + "ph", at)
+                xfrm(ET.SubElement(sp, P + "spPr"), A + "xfrm", s)
+                tb = ET.SubElement(sp, P + "txBody")
+                ET.SubElement(tb, A + "bodyPr")
+                pe = ET.SubElement(tb, A + "p")
+                if s["id"]:
+                    ET.SubElement(ET.SubElement(pe, A + "r"), A + "t").text = word(s["id"])
+                elif k % 2:
+                    ET.SubElement(ET.SubElement(pe, A + "r"), A + "t").text = "  "
+            elif s["kind"] == "gf":
+                gf = ET.SubElement(parent, P + "graphicFrame")
+                nv = ET.SubElement(gf, P + "nvGraphicFramePr")
+                ET.SubElement(nv, P + "cNvPr", {"id": str(k + 1), "name": f"Frame {k}"})
+                xfrm(gf, P + "xfrm", s)
+                gd = ET.SubElement(ET.SubElement(gf, A + "graphic"), A + "graphicData",
+                                   {"uri": mod.TABLE_URI if s["id"] else "http://schemas.openxmlformats.org/drawingml/2006/chart"})
+                if s["id"]:
+                    tc = ET.SubElement(ET.SubElement(ET.SubElement(gd, A + "tbl"), A + "tr"), A + "tc")
+                    ET.SubElement(ET.SubElement(ET.SubElement(ET.SubElement(tc, A + "txBody"), A + "p"), A + "r"), A + "t").text = word(s["id"])
+            else:
+                pic = ET.SubElement(parent, P + "pic")
+                nv = ET.SubElement(pic, P + "nvPicPr")
+                at = {"id": str(k + 1), "name": f"Picture {k}"}
+                if s["alt"]:
+                    at["descr"] = word(s["alt"])
+                ET.SubElement(nv, P + "cNvPr", at)
+                bf = ET.SubElement(pic, P + "blipFill")
+                if s["id"]:
+                    ET.SubElement(bf, A + "blip", {R + "embed": f"rId{k}"})
+                    rels[f"rId{k}"] = {"type": "http://schemas.openxmlformats.org/officeDocument/2006/relationships/image",
+                                       "target": f"../media/image{s['id']}.png"}
+                    blobs[f"ppt/media/image{s['id']}.png"] = png(s["id"])
+                else:
+                    ET.SubElement(bf, A + "blip")
+                xfrm(ET.SubElement(pic, P + "spPr"), A + "xfrm", s)
+        try:
+            sl = fn(Ctx(root, rels, blobs), "ppt/slides/slide1.xml", 1, n0)
+            by_len = {len(b): int(p_.rsplit("image", 1)[1].split(".")[0]) for p_, b in blobs.items()}
+            by_blob = {b: int(p_.rsplit("image", 1)[1].split(".")[0]) for p_, b in blobs.items()}
+            obs = {"title": ids([sl.title])[0] if sl.title else 0, "footer": ids([sl.footer])[0] if sl.footer else 0,
+                   "content": ids(sl.content_placeholders), "other": ids(sl.other_textboxes),
+                   "tables": [ids([c for row in t for c in row])[0] if t and t[0] else 999 for t in sl.tables],
+                   "images": [[im.image_index, by_blob.get(im.blob, 999)] for im in sl.images],
+                   "text": ids(sl.text.split("\n")) if sl.text else [], "base": ids(sl.base_text.split("\n")) if sl.base_text else []}
+            res.append({"slide": obs})
+        except Exception as e:
+            res.append({"exc": f"{type(e).__name__}: {e}"[:200]})
+    return {"obs": res}
+
+
+def pptx_slide_model(ctx):
+    """PptxSlide.tla: theorems on all shape trees of the bounded universe, two sensitivity runs, binding of the real
+    _process_slide_from_context (+ _get_shape_position) to the machine's function."""
+    from concurrent.futures import ProcessPoolExecutor
+    from ..docrun import from_tla
+    from ..tlaval import iter_dump, to_tla
+    from ..tlc import MachineryError, run_tlc_many
+    invs = "".join(f"INVARIANT {i}\n" for i in ("Inv_StepAgreesWithFunction", "Inv_EveryContentOnce", "Inv_ReadingOrder", "Inv_Lists",
+                                                  "Inv_TablesInOrder", "Inv_ImagesNumbered"))
+    consts = "MaxShapes = 2\n MaxG = 1\n"
+    cfg = f"SPECIFICATION Spec\nCONSTANTS WalkDev = {{}}\n {consts}{invs}PROPERTY Prop_Terminates\n"
+    devs = ["Pptx!XmlOrder", "Pptx!GroupSkipped"]
+    dump = ctx.scratch / "pptxslide.dump"
+    runs = run_tlc_many(
+        [("PptxSlide", cfg, dict(scratch=ctx.scratch, expect_fail=True, heap="6g", workers=6))]
+        + [("PptxSlide", f"SPECIFICATION Spec\nCONSTANTS WalkDev = {{\"{d}\"}}\n MaxShapes = 2\n MaxG = 1\n{invs}",
+            dict(scratch=ctx.scratch, expect_fail=True, workers=3)) for d in devs]
+        + [("PptxSlide", f"SPECIFICATION GenSpec\nCONSTANTS WalkDev = {{}}\n {consts}", dict(scratch=ctx.scratch, dump=dump, workers=4))])
+    r, rg = runs[0], runs[-1]
+    ctx.ev.tlc("PptxSlide: every text / table once, slide text in reading order, role lists, tables / pictures in reading order", r)
+    if r.violated:
+        ctx.v.violation(what=f"PptxSlide.tla: the strict model violates {r.violated}", observed=r.output[-1500:])
+    for d, rs in zip(devs, runs[1:-1]):
+        ctx.ev.tlc(f"PptxSlide sensitivity: {d} must violate a theorem", rs, note="expected violation")
+        if not rs.violated:
+            raise MachineryError(f"PptxSlide sensitivity run {d} did not fail")
+    ctx.ev.tlc("PptxSlide GenSpec: shape trees", rg)
+    cases = sorted(({"shapes": from_tla(st["shapes"]), "n0": from_tla(st["n0"])} for st in iter_dump(dump)), key=lambda c: json.dumps(c))
+    if len(cases) != rg.distinct:
+        raise MachineryError(f"PptxSlide dump {len(cases)} != {rg.distinct}")
+    limit = 40000 if ctx.thorough else 9000
+    if len(cases) > limit:
+        rng = random.Random(ctx.seed)
+        small_cases = [c for c in cases if len(c["shapes"]) <= 1]
+        cases = small_cases + rng.sample([c for c in cases if len(c["shapes"]) > 1], limit - len(small_cases))
+    chunks = [cases[k:k + 1500] for k in range(0, len(cases), 1500)]
+    with ProcessPoolExecutor(8) as ex:
+        obs = list(ex.map(_pptx_slide_job, chunks))
+    traces = []
+    for ch, o in zip(chunks, obs):
+        if "skip" in o:
+            ctx.log("pptx-slide binding skipped: " + o["skip"])
+            return
+        for case, x in zip(ch, o["obs"]):
+            if "exc" in x:
+                ctx.v.violation(what=f"_process_slide_from_context raised on {json.dumps(case)[:300]}: {x['exc']}", case=case)
+                continue
+            traces.append({"id": f"pptxslide:{len(traces)}", "hdr": {"fmt": "pptx", "doc": case}, "raw": json.dumps(x["slide"])[:300],
+                           "ev": [{"a": "Slide", "shapes": case["shapes"], "n0": case["n0"], "slide": x["slide"]}]})
+
+    def cfgfn(dev):
+        return f"SPECIFICATION TraceSpec\nCONSTANTS WalkDev = {to_tla(set(dev))}\nCONSTRAINT TraceAccept\n"
+    validate_with_findings(ctx, "PptxSlideTrace", traces, {},
+                           lambda t, e: f"pptx slide differs from PptxSlide.tla: shapes {json.dumps(e['shapes'])[:400]} -> {t['raw']}",
+                           lambda t: "pptx_extractor.py:_process_slide_from_context / _get_shape_position", cfg=cfgfn)
+    ctx.ev.replayed(len(traces))
+    for t in traces[:: max(1, len(traces) // 200)]:
+        ctx.ev.nontrivial(("pptxslide", t["raw"]))
+
+
 def run(ctx):
     ev = ctx.ev
     rng = random.Random(ctx.seed)
@@ -397,6 +585,7 @@ def run(ctx):
     sections_model(ctx)
     ppt_slides_model(ctx)
     odp_slide_model(ctx)
+    pptx_slide_model(ctx)
     ev.set(rule="same TLC-enumerated document suite as C02 (flow documents incl. headings; decks / workbooks / paged "
                 "documents of 1..3 units incl. empty units) x formats; non-trivial = multi-unit or non-empty unit text",
            exhaustive=bool(ctx.thorough), constants={"flow_formats": FLOW_FORMATS, "multi_unit_formats": MULTI,
